@@ -34,4 +34,14 @@ CHECKS = {
         "note": "Trusted: reference support values. Known finding KF-C04-ellipsoid-aabb (pinned test encodes the wrong numbers) is matched only when the result equals the known wrong formula.",
         "technique": "exhaustive enumeration of the pose/size lattice on the real code vs closed-form reference extents",
     },
+    "C01": {
+        "text": ("All 100 ordered collider type pairs are fully crossed; sizes (4-6 per type, 1e-2..1e2), 28 orientations, offsets up "
+                 "to 1e3, Margin wrappers, 14 placements (exact touching, gaps 1e-6..300, overlapping, nested, identical, same object) "
+                 "and 31 directions are explored to deviation bound 2 (every pair of non-default factors; ~4.4e5 scenes) plus a "
+                 "seed-selected slice of deviation-3 scenes; every scene has constructed ground truth (parallel supporting planes prove "
+                 "the distance) and every answer is judged by membership, consistency and the separating-plane optimality certificate."),
+        "design_ref": "DESIGN.md 5 C01",
+        "note": "Trusted: reference model; bounded to the scene lattice. Support evaluations are counted through instance-level wrappers (budget 2000).",
+        "technique": "bounded-exhaustive scene-lattice exploration of the real gjk.gjk vs reference model (constructed truth + separating-plane certificate)",
+    },
 }
